@@ -31,6 +31,7 @@ func runC01(r *Report, p *Program) {
 	// and is indifferent to how the code spells them.
 	c01R5(h)
 	c01R6(h)
+	c01R7(h)
 }
 
 func isEdgesMapLookup(in ssa.Instruction) (*ssa.Lookup, bool) {
